@@ -30,8 +30,8 @@ deriving DecidableEq, Repr
 abbrev RdEnv := Nat → Nat → PartAns
 
 /-- The `io.ReaderAt` contract: fewer bytes than requested only together with an error.
-    (Against a reader that breaks it, `multi.ReadAt` restarts the part at offset 0 or spins; the
-    model answers `.other` there and no theorem is stated for such readers.) -/
+    (Against a reader that breaks it, `multi.ReadAt` used to restart the part at offset 0 or spin;
+    since the F25 repair it reports an error, which is what the model always answered: `.other`.) -/
 def RdEnv.Contract (env : RdEnv) : Prop := ∀ k want, (env k want).err = .none → want ≤ (env k want).n
 
 /-- A reader that delivers everything, possibly reporting `io.EOF` along with a read -/
@@ -129,13 +129,17 @@ def envOk : RdEnv := fun _ want => ⟨want, .none⟩
 def envEofWith (j : Nat) : RdEnv := fun k want => if k = j then ⟨want, .eof⟩ else ⟨want, .none⟩
 
 /-- the `j`-th read fails: `kind` 0 = error without data, 1 = one byte short with
-    io.ErrUnexpectedEOF, 2 = one byte short with io.EOF, 3 = nothing with io.EOF -/
+    io.ErrUnexpectedEOF, 2 = one byte short with io.EOF, 3 = nothing with io.EOF,
+    4 = one byte short with a nil error, 5 = nothing with a nil error (4 and 5 break the
+    io.ReaderAt contract; since the F25 repair `multi.ReadAt` reports them as errors) -/
 def envFault (j kind : Nat) : RdEnv := fun k want =>
   if k ≠ j then ⟨want, .none⟩ else
   match kind with
   | 0 => ⟨0, .other⟩
   | 1 => if want ≤ 1 then ⟨0, .other⟩ else ⟨want - 1, .unexpected⟩
   | 2 => if want ≤ 1 then ⟨0, .other⟩ else ⟨want - 1, .eof⟩
-  | _ => ⟨0, .eof⟩
+  | 3 => ⟨0, .eof⟩
+  | 4 => ⟨want - 1, .none⟩
+  | _ => ⟨0, .none⟩
 
 end GoUefi.Impl
